@@ -114,6 +114,20 @@ func TestZZVerifReplay(t *testing.T) {
 '''
 
 
+def _uses_maporder(pkg_rel, harness):
+    """does the source of this harness function call verifrt.MapOrder?"""
+    try:
+        for f in os.listdir(os.path.join(HARNESS, pkg_rel)):
+            if f.endswith('.go'):
+                txt = open(os.path.join(HARNESS, pkg_rel, f)).read()
+                m = re.search(r'^func %s\(\) \{.*?^\}' % re.escape(harness), txt, re.M | re.S)
+                if m and 'verifrt.MapOrder(' in m.group(0):
+                    return True
+    except OSError:
+        pass
+    return False
+
+
 def replay(pkg_path, pkg_rel, harness, model):
     """Run the harness natively on a model.  Returns dict(kind= ok|assert|panic|assume|error, detail)."""
     w = build.workdir()
@@ -151,6 +165,13 @@ def replay(pkg_path, pkg_rel, harness, model):
     r = subprocess.run(['go', 'test', '-v', '-vet=off', '-count=1', '-overlay', ovf, '-run', 'TestZZVerifReplay', './' + host_rel],
                        cwd=build.REPO, env=env, capture_output=True, text=True, timeout=600)
     out = r.stdout + r.stderr
+    if 'VERIF-REPLAY: ok' in out and 'VERIF_REPEAT' not in env and _uses_maporder(pkg_rel, harness):
+        # the harness fixes the iteration order of Go maps symbolically (verifrt.MapOrder); natively Go randomises it,
+        # so the counterexample is order-dependent: repeat the harness until the assertion fails once
+        env['VERIF_REPEAT'] = '3000'
+        r = subprocess.run(['go', 'test', '-v', '-vet=off', '-count=1', '-overlay', ovf, '-run', 'TestZZVerifReplay', './' + host_rel],
+                           cwd=build.REPO, env=env, capture_output=True, text=True, timeout=600)
+        out = r.stdout + r.stderr
     if os.environ.get('VERIF_REPLAY_RAW'):
         return {'kind': 'raw', 'detail': out}
     if 'VERIF-REPLAY: ok' in out:
